@@ -77,6 +77,13 @@ def instances(tier, seed):
             out.append(dict(name="pointer on a side stream %s @%d" % (m, s), params=dict(kind="sidepointer", m=m, s=s, n=n)))
         out.append(dict(name="pointer to the outer stream from inside a region %s" % m, params=dict(kind="regionpointer", m=m, n=n)))
         out.append(dict(name="build pointer on a side stream %s" % m, params=dict(kind="bsidepointer", m=m)))
+    for s0 in (0, 1):
+        out.append(dict(name="greedyrange over elements sized by their index @%d" % s0, params=dict(kind="range-index", s=s0, n=n)))
+    for u_i, pf in ((2, None), (2, 1), (0, None), (0, "b"), (3, None)):
+        out.append(dict(name="union#%d parsefrom from the context = %r @1" % (u_i, pf), params=dict(kind="union", u=UNIONS[u_i], pf=pf, s=1, n=n, pfctx=True)))
+    for shape in ("optional", "range", "select"):          # (Peek needs a seekable stream; streaming bit regions are not)
+        for nb in (1, 2, 3):
+            out.append(dict(name="look-ahead inside a streaming bit region: %s, %d bytes" % (shape, nb), params=dict(kind="bits-lookahead", shape=shape, nb=nb, n=nb)))
     for m in names:
         out.append(dict(name="build pointer %s" % m, params=dict(kind="bpointer", m=m)))
     out.append(dict(name="build peek", params=dict(kind="bpeek")))
@@ -178,6 +185,58 @@ def harness(ctx, C, p):
         ctx.check("the region's own fields are read from the region", api.and_terms([ctx.eq(v.body.x, data[2]), ctx.eq(v.body.y, mkbytes(list(data[3:2 + ln])))]))
         ctx.check("the outer stream continues right after the region", api.and_terms([ctx.eq(v.after, 2 + ln), ctx.eq(v.tail, data[2 + ln])]))
         return "ok"
+    if kind == "range-index":
+        # elements may legitimately be empty: GreedyRange(Bytes(this._index)) reads 0, 1, 2, ... bytes until the data runs out
+        d = mk(C, "GreedyRange(Bytes(this._index))")
+        st = _at(ctx, data, s)
+        r = api.outcome(d.parse_stream, st)
+        exp, pos, i = [], s, 0
+        while pos + i <= len(data):
+            exp.append(data[pos:pos + i])
+            pos += i
+            i += 1
+        ctx.check("GreedyRange never fails on element failure", r.ok)
+        ctx.check("elements of 0, 1, 2, ... bytes, the empty first one included", ctx.eq(list(r.value), exp))
+        ctx.check("position is the end of the last successful element", st.tell() == pos)
+        return "ok"
+    if kind == "bits-lookahead":
+        # a look-ahead that fails in the middle of a byte inside a streaming bit region is undone like anywhere else
+        shape, nb = p["shape"], p["nb"]
+        from .ref import bit_of
+        bits = [bit_of(b, 7 - j) for b in data for j in range(8)]
+        val = lambda lo, hi: sum(bits[lo + i] * 2 ** (hi - lo - 1 - i) for i in range(hi - lo))
+        tot = 8 * nb
+        if shape == "optional":
+            d = mk(C, "BitStruct('a'/Nibble, 'b'/Optional(Octet), 'c'/GreedyRange(Bit))")
+            r = api.outcome(d.parse, data)
+            ctx.check("parse succeeds", r.ok)
+            v = r.value
+            if tot - 4 >= 8:
+                ctx.check("the optional field is there", api.and_terms([ctx.eq(v.a, val(0, 4)), ctx.eq(v.b, val(4, 12)), ctx.eq(list(v.c), bits[12:])]))
+            else:
+                ctx.check("the optional field is absent and the bits it tried are read again", api.and_terms([ctx.eq(v.a, val(0, 4)), v.b is None, ctx.eq(list(v.c), bits[4:])]))
+        elif shape == "peek":
+            d = mk(C, "BitStruct('a'/Nibble, 'p'/Peek(BitsInteger(12)), 'c'/GreedyRange(Bit))")
+            r = api.outcome(d.parse, data)
+            ctx.check("parse succeeds", r.ok)
+            v = r.value
+            want_p = val(4, 16) if tot >= 16 else None
+            ctx.check("Peek sees the bits or nothing, and consumes nothing either way", api.and_terms([ctx.eq(v.a, val(0, 4)), (v.p is None) if want_p is None else ctx.eq(v.p, want_p), ctx.eq(list(v.c), bits[4:])]))
+        elif shape == "range":
+            d = mk(C, "BitStruct('a'/BitsInteger(3), 'r'/GreedyRange(BitsInteger(5)), 'c'/GreedyRange(Bit))")
+            r = api.outcome(d.parse, data)
+            ctx.check("parse succeeds", r.ok)
+            v = r.value
+            k = (tot - 3) // 5
+            ctx.check("whole 5-bit elements, then the leftover bits one by one", api.and_terms([ctx.eq(v.a, val(0, 3)), ctx.eq(list(v.r), [val(3 + 5 * i, 8 + 5 * i) for i in range(k)]), ctx.eq(list(v.c), bits[3 + 5 * k:])]))
+        else:
+            d = mk(C, "BitStruct('a'/Nibble, 's'/Select(BitsInteger(20), BitsInteger(12), BitsInteger(4)), 'c'/GreedyRange(Bit))")
+            r = api.outcome(d.parse, data)
+            ctx.check("parse succeeds", r.ok)
+            v = r.value
+            w = 20 if tot - 4 >= 20 else (12 if tot - 4 >= 12 else 4)
+            ctx.check("the first alternative that fits is taken, after the longer ones were undone", api.and_terms([ctx.eq(v.a, val(0, 4)), ctx.eq(v.s, val(4, 4 + w)), ctx.eq(list(v.c), bits[4 + w:])]))
+        return "ok"
     if kind == "regionpointer-neg":
         # a negative Pointer offset counts from the end of the stream the Pointer works on -- inside a region, from the region's end --
         # wherever the region lies in the outer stream
@@ -245,11 +304,11 @@ def harness(ctx, C, p):
         return "n=%d" % len(exp)
     if kind == "union":
         u, pf = p["u"], p["pf"]
-        d = mk(C, "Union(%r, %s)" % (pf, ", ".join(u)))
+        d = mk(C, "Union(%s, %s)" % ("this._params.pf" if p.get("pfctx") else repr(pf), ", ".join(u)))
         if p.get("compiled"):
             d = d.compile()
         st = _at(ctx, data, s)
-        r = api.outcome(d.parse_stream, st)
+        r = api.outcome(d.parse_stream, st, **(dict(pf=pf) if p.get("pfctx") else {}))
         exp, ends, ok, env = {}, {}, True, {}
         for i, item in enumerate(u):
             name = item.split("/")[0].strip("'") if "/" in item else None
